@@ -254,6 +254,27 @@ impl<R: RTraits> TileManager<R> {
     }
 }
 
+#[cfg(feature = "verif")]
+impl<R> TileManager<R> {
+    /// Verification-only, read-only: sizes of the three internal maps, number of
+    /// in-memory / reader-backed tiles and total bytes retained in memory.
+    pub fn verif_counts(&self) -> [u64; 6] {
+        let mem = self
+            .tile_by_id
+            .values()
+            .filter(|t| matches!(t, TileManagerTile::Hash(_)))
+            .count();
+        [
+            self.tile_by_id.len() as u64,
+            self.data_by_hash.len() as u64,
+            self.ids_by_hash.len() as u64,
+            mem as u64,
+            (self.tile_by_id.len() - mem) as u64,
+            self.data_by_hash.values().map(|v| v.len() as u64).sum(),
+        ]
+    }
+}
+
 impl Default for TileManager<Cursor<&[u8]>> {
     fn default() -> Self {
         Self::new(None)
